@@ -56,9 +56,22 @@ def stopped_world_scripts(rng, tier):
         lines.append("sframe 1 16")
         for c in range(ncl):
             lines += ["deliver %d s2c 0 all" % c, "cframe %d" % c, "deliver %d c2s 0 all" % c]
-        lines.append("stop")
-        for c in range(ncl):
-            lines += ["disconnect %d" % c, "cframe %d" % c]
+        if rng.random() < 0.4:
+            # the last client leaves BEFORE the server stops; a removal made since the last tick is still buffered at the stop
+            for c in range(ncl):
+                lines += ["disconnect %d" % c, "cframe %d" % c]
+            for _ in range(rng.randrange(0, 3)):
+                e = rng.choice(sorted(comps))
+                if comps[e]:
+                    kk = rng.choice(sorted(comps[e]))
+                    comps[e].discard(kk)
+                    lines.append("sop remove %d %d" % (e, kk))
+                lines.append("sframe 0 %d" % rng.choice([5, 10]))
+            lines.append("stop")
+        else:
+            lines.append("stop")
+            for c in range(ncl):
+                lines += ["disconnect %d" % c, "cframe %d" % c]
         alive = set(comps)
         nxt = n + 1
         for _ in range(rng.randrange(2, 6)):
